@@ -531,7 +531,16 @@ func ruleUnconditionalRecursion(c *Ctx, rule string, roots []*ssa.Function, why 
 				continue
 			}
 			for _, e := range l.elems {
+				e := e
 				path := (&an.Query{
+					// the child list holds no nil (shape invariant): a nil test of the element skips nothing
+					Assume: func(cond ssa.Value) (bool, bool) {
+						x, k, eq, ok := an.CondAtom(cond)
+						if ev, isV := e.(ssa.Value); ok && isV && k.Value == nil && x == ev {
+							return !eq, true
+						}
+						return false, false
+					},
 					Block:      func(t ssa.Instruction) bool { return t == rec },
 					TargetEdge: loopBackEdge(l),
 					Target:     func(t ssa.Instruction) bool { _, ok := t.(*ssa.Return); return ok },
